@@ -605,6 +605,12 @@ class G:
                 a, p = self.dec(); i = self.int_of(ty)
                 if k == 8:
                     i = max(INT_TYPES[ty][0], min(INT_TYPES[ty][1], r.choice([0, 1, 2, 3, 7, -1, -3, 10 ** 35])))
+                elif k == 9:
+                    # the integer at a limit of its type (i128::MIN included) against a Decimal whose coefficient is ±1, ±2, ±3 or
+                    # which equals ±one: `MIN % -1` traps of the machine remainder, at every scale (D14)
+                    lo_, hi_ = INT_TYPES[ty]
+                    i = r.choice([lo_, lo_, hi_, lo_ + 1])
+                    a = r.choice([-1, -1, 1, -2, 3, -(10 ** p), 10 ** p])
                 yield f"{self.mode()} {iop} {ty} {pos} {r.choice(forms)} {a} {p} {i}"
 
     # ---------------------------------------------------------------- C11
